@@ -128,6 +128,10 @@ pub fn gen_form(c: &mut Case<'_>, max_file: usize) -> Built {
     if c.t.chance(48) {
         fields.push(("success_action_status".into(), "201".into()));
     }
+    if c.t.chance(32) {
+        // not a POST Object form field: like any unknown field it decides nothing (the bucket is the one of the URL)
+        fields.push(("bucket".into(), gen_bucket_name(&mut c.t)));
+    }
     // shuffle the order of the fields before the file
     for i in (1..fields.len()).rev() {
         let j = c.t.below(i + 1);
@@ -153,7 +157,7 @@ pub fn gen_form(c: &mut Case<'_>, max_file: usize) -> Built {
     }
     for (n, v) in form.fields.clone() {
         let lname = n.to_ascii_lowercase();
-        if lname == "key" || lname.starts_with("x-ignore-") {
+        if lname == "key" || lname == "bucket" || lname.starts_with("x-ignore-") {
             continue;
         }
         match c.t.below(3) {
@@ -213,7 +217,7 @@ fn case(c: &mut Case<'_>) -> CaseResult {
     let max_file = if c.tier == crate::engine::Tier::Quick { 20_000 } else { 262_144 };
     let mut b = gen_form(c, max_file);
     // one deviation: policy violation, expiry, or tampering
-    let deviations = ["none", "none", "none", "expired", "violate-eq", "violate-starts-with", "violate-length", "violate-bucket", "tamper-policy", "tamper-signature", "other-key", "tamper-credential-date", "tamper-date", "algorithm", "unknown-key"];
+    let deviations = ["none", "none", "none", "expired", "violate-eq", "violate-starts-with", "violate-length", "violate-bucket", "tamper-policy", "tamper-signature", "signature-length", "other-key", "tamper-credential-date", "tamper-date", "algorithm", "unknown-key"];
     let mut dev = *c.t.pick(&deviations);
     let now = now_unix();
     match dev {
@@ -275,6 +279,13 @@ fn case(c: &mut Case<'_>) -> CaseResult {
                 bts[0] = if bts[0] == b'0' { b'1' } else { b'0' };
                 String::from_utf8(bts).unwrap()
             });
+            sig_valid = false;
+        }
+        "signature-length" => {
+            // a proper prefix of the correct signature (possibly empty), or the signature followed by another digit
+            let cut = c.t.below(64);
+            let extend = c.t.chance(64);
+            set(&mut form, "x-amz-signature", &mut |v| if extend { format!("{v}0") } else { v[..cut.min(v.len())].to_owned() });
             sig_valid = false;
         }
         "tamper-credential-date" => {
